@@ -626,3 +626,14 @@ def is_panic_node(n):
                 return "todo"
             return "panic"
     return None
+
+
+def root_expr_name(e):
+    """name of the variable an access path is rooted at: `&mut slot.1` -> slot, `attr.value.as_mut()` -> attr"""
+    e = strip_ref(e)
+    while isinstance(e, dict) and e.get("k") in ("mcall", "field", "index", "try", "unary", "ref"):
+        e = e.get("recv") or e.get("base") or e.get("e")
+        e = strip_ref(e) if isinstance(e, dict) else e
+    if isinstance(e, dict) and e.get("k") == "path" and len(e["segs"]) == 1:
+        return e["s"]
+    return None
